@@ -31,6 +31,7 @@ def main():
     ap.add_argument("src")
     ap.add_argument("id")
     ap.add_argument("--skip-suite", action="store_true")
+    ap.add_argument("--skip-check", action="store_true")
     ap.add_argument("--tier", default="quick")
     ap.add_argument("--runs", type=int, default=0)
     ap.add_argument("--budget", type=float, default=0)
@@ -127,7 +128,7 @@ def main():
             result["suite_pass"] = True
     # our check(s)
     detected = {}
-    for p in [prop] + [x for x in args.also.split(",") if x]:
+    for p in ([] if args.skip_check else [prop] + [x for x in args.also.split(",") if x]):
         cmd = "%s/verif check %s --tier %s" % (ROOT, p, args.tier)
         if args.runs:
             cmd += " --runs %d" % args.runs
@@ -154,6 +155,19 @@ def finish(result, out, wt, work):
     shutil.rmtree(wt, ignore_errors=True)
     shutil.rmtree(work, ignore_errors=True)
     sh("git -C %s worktree prune" % REPO)
+    prev = {}
+    try:
+        prev = json.load(open(os.path.join(out, "meta.json")))
+    except Exception:
+        pass
+    if "suite_pass" not in result and prev.get("confirmed", {}).get("suite_pass") is not None:
+        result["suite_pass"] = prev["confirmed"]["suite_pass"]
+    if not result.get("checks") and prev.get("checks"):
+        result["checks"] = prev["checks"]
+        result["detected"] = prev.get("detected")
+    elif prev.get("checks"):
+        merged = dict(prev["checks"]); merged.update(result["checks"]); result["checks"] = merged
+        result["detected"] = any(v["exit"] == 1 for v in merged.values())
     m = {
         "id": result["id"], "property": result["property"],
         "summary": result["agent_meta"].get("summary"), "why_breaks": result["agent_meta"].get("why_breaks"),
